@@ -32,6 +32,7 @@ package phyloxml
 //@   flag noframe
 //@   requires p != nil
 //@   call io/phyloxml.phylogenyToTree [one_tree_per_phylogeny_in_document_order] a1 != nil && a0 != nil
+//@   call io/phyloxml.phylogenyToTree@L1 [every_phylogeny_is_converted_into_a_tree_of_its_own] a1 == t && freshiter(t)
 //@   loop 1
 //@     invariant [callback_called_once_per_phylogeny_so_far] ghost(fncalls_it) == lold(ghost(fncalls_it)) + rangeindex + 1
 //@   ensures [callback_called_once_per_phylogeny] ghost(fncalls_it) == old(ghost(fncalls_it)) + len(p.Phylogenies)
